@@ -2,56 +2,65 @@
 (* Availability profiles (speed, bandwidth, latency, state): value at date t of a piecewise-constant, possibly      *)
 (* periodic profile (property C22; docs: "Modeling churn / external load", kernel/resource/profile).                *)
 (*                                                                                                                  *)
-(* A profile is a record [pts |-> <<[t |-> Rat, v |-> Rat], ...>>, period |-> Rat, init |-> Rat]:                   *)
-(*   pts     points sorted by non-decreasing date, dates relative to the start of an iteration                      *)
-(*   period  0 for a one-shot profile; otherwise the iteration restarts every `period` (period >= last date)        *)
+(* A profile is a record [pts |-> <<[k |-> Nat, v |-> Rat], ...>>, period |-> Nat, init |-> Rat]:                   *)
+(*   pts     points sorted by non-decreasing date; dates are integer numbers of ticks (the scenario fixes the tick,  *)
+(*           tps ticks per second), relative to the start of an iteration                                           *)
+(*   period  0 for a one-shot profile; otherwise the iteration restarts every `period` ticks (period >= last date)  *)
 (*   init    value of the resource before the first point of the first iteration                                    *)
 (* The value at date t is that of the latest point whose date (in any iteration) is <= t; among points with the     *)
 (* same date the last listed wins.  An empty `pts` means "no profile".                                              *)
+(* Dates t are arbitrary rationals; since point dates are whole ticks, "point date <= t" is "point tick <= tk" and  *)
+(* "point date > t" is "point tick > tk" with tk = floor(t * tps): the operators below work on tk (integers only).  *)
 EXTENDS Rat
 
-NoProfile == [pts |-> <<>>, period |-> Zero, init |-> Zero]
+NoProfile == [pts |-> <<>>, period |-> 0, init |-> Zero]
 HasProfile(p) == Len(p.pts) > 0
-Periodic(p) == RPos(p.period)
+Periodic(p) == p.period > 0
 
-\* floor(a / b) for a >= 0, b > 0
-FloorDiv(a, b) == LET q == RDiv(a, b) IN q[1] \div q[2]
-\* date within the current iteration, and iteration number
-IterOf(p, t) == IF Periodic(p) THEN FloorDiv(t, p.period) ELSE 0
-Local(p, t) == IF Periodic(p) THEN RSub(t, RMulI(p.period, IterOf(p, t))) ELSE t
+\* floor(t * tps) for t >= 0
+TickOf(t, tps) == (t[1] * tps) \div t[2]
+DateOf(k, tps) == R(k, tps)
 
-\* index of the last point with date <= x (0 if none)
-LastIdx(p, x) == LET S == { i \in 1..Len(p.pts) : RLe(p.pts[i].t, x) } IN
-                 IF S = {} THEN 0 ELSE CHOOSE i \in S : \A j \in S : j <= i
+IterOf(p, tk) == IF Periodic(p) THEN tk \div p.period ELSE 0
+Local(p, tk) == IF Periodic(p) THEN tk % p.period ELSE tk
 
-ValueAt(p, t) ==
+\* index of the last point with tick <= x (0 if none); points are sorted
+RECURSIVE LastFrom(_, _, _)
+LastFrom(p, x, i) == IF i = 0 THEN 0 ELSE IF p.pts[i].k <= x THEN i ELSE LastFrom(p, x, i - 1)
+LastIdx(p, x) == LastFrom(p, x, Len(p.pts))
+
+ValueAtTk(p, tk) ==
   IF ~HasProfile(p) THEN p.init
-  ELSE LET i == LastIdx(p, Local(p, t)) IN
+  ELSE LET i == LastIdx(p, Local(p, tk)) IN
        IF i > 0 THEN p.pts[i].v
-       ELSE IF IterOf(p, t) = 0 THEN p.init
+       ELSE IF IterOf(p, tk) = 0 THEN p.init
        ELSE p.pts[Len(p.pts)].v            \* before the first point of a later iteration: the last value of the previous one
+ValueAt(p, t, tps) == ValueAtTk(p, TickOf(t, tps))
 
-\* dates of the points strictly after t, in the current and the next iteration (enough to find the next change)
-FutureDates(p, t) ==
-  IF ~HasProfile(p) THEN {}
-  ELSE LET k == IterOf(p, t)
-           base(j) == IF Periodic(p) THEN RMulI(p.period, j) ELSE Zero
-           its == IF Periodic(p) THEN {k, k + 1} ELSE {0} IN
-       { d \in { RAdd(base(j), p.pts[i].t) : j \in its, i \in 1..Len(p.pts) } : RLt(t, d) }
-HasNext(p, t) == FutureDates(p, t) # {}
-NextDate(p, t) == RSetMin(FutureDates(p, t))
+\* tick of the first point strictly after tick tk (-1 if none): in the current iteration, else the first point of the
+\* next iteration
+RECURSIVE FirstAfter(_, _, _)
+FirstAfter(p, x, i) == IF i > Len(p.pts) THEN 0 ELSE IF p.pts[i].k > x THEN i ELSE FirstAfter(p, x, i + 1)
+NextTick(p, tk) ==
+  IF ~HasProfile(p) THEN -1
+  ELSE LET i == FirstAfter(p, Local(p, tk), 1) IN
+       IF i > 0 THEN (tk - Local(p, tk)) + p.pts[i].k
+       ELSE IF Periodic(p) THEN (tk - Local(p, tk)) + p.period + p.pts[1].k
+       ELSE -1
 
 \* well-formedness
 WellFormed(p) ==
-  /\ \A i \in 1..Len(p.pts) : ~RLt(p.pts[i].t, Zero) /\ ~RLt(p.pts[i].v, Zero)
-  /\ \A i \in 1..Len(p.pts) - 1 : RLe(p.pts[i].t, p.pts[i + 1].t)
-  /\ (Periodic(p) /\ HasProfile(p)) => RLe(p.pts[Len(p.pts)].t, p.period)
+  /\ \A i \in 1..Len(p.pts) : p.pts[i].k >= 0 /\ ~RLt(p.pts[i].v, Zero)
+  /\ \A i \in 1..Len(p.pts) - 1 : p.pts[i].k <= p.pts[i + 1].k
+  /\ (Periodic(p) /\ HasProfile(p)) => p.pts[Len(p.pts)].k <= p.period
 
-\* self-test
-ASSUME LET p == [pts |-> <<[t |-> RI(1), v |-> RI(5)], [t |-> RI(3), v |-> RI(7)]>>, period |-> RI(4), init |-> RI(2)]
-           q == [p EXCEPT !.period = Zero] IN
-       /\ ValueAt(p, Zero) = RI(2) /\ ValueAt(p, RI(1)) = RI(5) /\ ValueAt(p, R(5, 2)) = RI(5) /\ ValueAt(p, RI(3)) = RI(7)
-       /\ ValueAt(p, RI(4)) = RI(7) /\ ValueAt(p, R(9, 2)) = RI(7) /\ ValueAt(p, RI(5)) = RI(5) /\ ValueAt(p, RI(11)) = RI(7)
-       /\ ValueAt(q, RI(100)) = RI(7) /\ NextDate(p, RI(3)) = RI(5) /\ NextDate(p, RI(1)) = RI(3) /\ ~HasNext(q, RI(3))
-       /\ NextDate(p, R(1, 2)) = RI(1) /\ WellFormed(p)
+\* self-test (tick = 1/2 s: points at 1 s and 3 s, period 4 s)
+ASSUME LET p == [pts |-> <<[k |-> 2, v |-> RI(5)], [k |-> 6, v |-> RI(7)]>>, period |-> 8, init |-> RI(2)]
+           q == [p EXCEPT !.period = 0]
+           V(x, t) == ValueAt(x, t, 2) IN
+       /\ V(p, Zero) = RI(2) /\ V(p, RI(1)) = RI(5) /\ V(p, R(5, 2)) = RI(5) /\ V(p, RI(3)) = RI(7) /\ V(p, R(5, 3)) = RI(5)
+       /\ V(p, RI(4)) = RI(7) /\ V(p, R(9, 2)) = RI(7) /\ V(p, RI(5)) = RI(5) /\ V(p, RI(11)) = RI(7) /\ V(p, R(29, 6)) = RI(7)
+       /\ V(q, RI(100)) = RI(7) /\ NextTick(p, 6) = 10 /\ NextTick(p, 2) = 6 /\ NextTick(q, 6) = -1
+       /\ NextTick(p, 1) = 2 /\ NextTick(p, 0) = 2 /\ NextTick(p, 7) = 10 /\ NextTick(p, 8) = 10 /\ NextTick(p, 13) = 14
+       /\ WellFormed(p) /\ TickOf(R(29, 6), 2) = 9
 =============================================================================
